@@ -151,14 +151,15 @@ def Vector_to_strings_signature : List String := ["self", "*", "ksep=None", "quo
 /-- the calls of dataiter/vector.py: Vector.to_strings in the order Python makes them along the source text -/
 def Vector_to_strings_call_order : List String := ["self.__class__.fast", "self.is_float", "util.format_floats", "pad", "self.__class__.fast", "self.is_integer", "self.is_timedelta", "'{:,d}'.format", "'{:,d}'.format(x).replace", "pad", "self.__class__.fast", "self.is_object", "str", "len", "range", "strings[i].splitlines", "util.ulen", "util.utruncate", "pad", "self.__class__.fast", "self.is_string", "quote", "len", "range", "strings[i].splitlines", "util.ulen", "util.utruncate", "pad", "self.__class__.fast", "str", "pad", "self.__class__.fast"]
 
-/-- dataiter/vector.py: Vector.to_string (sha256 of the function source: 11df0cd140949f63) -/
+/-- dataiter/vector.py: Vector.to_string (sha256 of the function source: 86628f41cc439ceb) -/
 def Vector_to_string (truth : Term → Bool) (max_elements_is_None : Bool) : Out :=
   let print_width' : Term := (Term.app "util.get_print_width" []);
   let add_string_element' : Term := (Term.app "local-def" [(Term.app "def" [(Term.sym "add_string_element"), (Term.app "params" [(Term.sym "string"), (Term.sym "rows")]), (Term.app "block" [(Term.app "if" [(Term.app "LtE" [(Term.app "len" [(Term.app "getitem" [(Term.sym "rows"), (Term.int (-(1 : Int)))])]), (Term.int (1 : Int))]), (Term.app "block" [(Term.app "return" [(Term.app ".append" [(Term.app "getitem" [(Term.sym "rows"), (Term.int (-(1 : Int)))]), (Term.sym "string")])])]), (Term.app "block" [])]), (Term.app "assign" [(Term.sym "row"), (Term.app ".join" [(Term.sym "' '"), (Term.app "Add" [(Term.app "getitem" [(Term.sym "rows"), (Term.int (-(1 : Int)))]), (Term.app "list" [(Term.sym "string")])])])]), (Term.app "if" [(Term.app "Lt" [(Term.app "util.ulen" [(Term.sym "row")]), print_width']), (Term.app "block" [(Term.app "return" [(Term.app ".append" [(Term.app "getitem" [(Term.sym "rows"), (Term.int (-(1 : Int)))]), (Term.sym "string")])])]), (Term.app "block" [])]), (Term.app "return" [(Term.app ".append" [(Term.sym "rows"), (Term.app "list" [(Term.sym "' '"), (Term.sym "string")])])])])])]);
   if max_elements_is_None then
     let max_elements' : Term := (Term.sym "dataiter.PRINT_MAX_ELEMENTS");
     let rows' : Term := (Term.app "list" [(Term.app "list" [(Term.sym "'['")])]);
-    let eff0 : Term := (Term.app "for" [(Term.sym "string"), (Term.app ".to_strings" [(Term.app "getitem" [(Term.sym "self"), (Term.app "slice" [(Term.sym "None"), max_elements'])]), (Term.app "=pad" [(Term.sym "True")])]), (Term.app "block" [(Term.app "call" [add_string_element', (Term.sym "string"), rows'])])]);
+    let n' : Term := (Term.app "min" [(Term.app ".length" [(Term.sym "self")]), max_elements']);
+    let eff0 : Term := (Term.app "for" [(Term.sym "string"), (Term.app ".to_strings" [(Term.app "getitem" [(Term.sym "self"), (Term.app "slice" [(Term.sym "None"), n'])]), (Term.app "=pad" [(Term.sym "True")])]), (Term.app "block" [(Term.app "call" [add_string_element', (Term.sym "string"), rows'])])]);
     if truth (Term.app "Lt" [max_elements', (Term.app ".length" [(Term.sym "self")])]) then
       let eff1 : Term := (Term.app "call" [add_string_element', (Term.sym "'...'"), rows']);
       let eff2 : Term := (Term.app "call" [add_string_element', (Term.app "fstring" [(Term.sym "'] '"), (Term.app "format" [(Term.app ".dtype_label" [(Term.sym "self")]), (Term.sym ""), (Term.int (-1 : Int))])]), rows']);
@@ -176,7 +177,8 @@ def Vector_to_string (truth : Term → Bool) (max_elements_is_None : Bool) : Out
         Out.ret [eff0, eff1] (Term.app ".join" [(Term.sym "'\\n'"), (Term.app "GeneratorExp" [(Term.app ".join" [(Term.sym "' '"), (Term.sym "x")]), (Term.app "in" [(Term.sym "x"), rows', (Term.app "if" [])])])])
   else
     let rows' : Term := (Term.app "list" [(Term.app "list" [(Term.sym "'['")])]);
-    let eff0 : Term := (Term.app "for" [(Term.sym "string"), (Term.app ".to_strings" [(Term.app "getitem" [(Term.sym "self"), (Term.app "slice" [(Term.sym "None"), (Term.sym "max_elements")])]), (Term.app "=pad" [(Term.sym "True")])]), (Term.app "block" [(Term.app "call" [add_string_element', (Term.sym "string"), rows'])])]);
+    let n' : Term := (Term.app "min" [(Term.app ".length" [(Term.sym "self")]), (Term.sym "max_elements")]);
+    let eff0 : Term := (Term.app "for" [(Term.sym "string"), (Term.app ".to_strings" [(Term.app "getitem" [(Term.sym "self"), (Term.app "slice" [(Term.sym "None"), n'])]), (Term.app "=pad" [(Term.sym "True")])]), (Term.app "block" [(Term.app "call" [add_string_element', (Term.sym "string"), rows'])])]);
     if truth (Term.app "Lt" [(Term.sym "max_elements"), (Term.app ".length" [(Term.sym "self")])]) then
       let eff1 : Term := (Term.app "call" [add_string_element', (Term.sym "'...'"), rows']);
       let eff2 : Term := (Term.app "call" [add_string_element', (Term.app "fstring" [(Term.sym "'] '"), (Term.app "format" [(Term.app ".dtype_label" [(Term.sym "self")]), (Term.sym ""), (Term.int (-1 : Int))])]), rows']);
@@ -200,7 +202,7 @@ def Vector_to_string_decorators : List String := []
 def Vector_to_string_signature : List String := ["self", "*", "max_elements=None"]
 
 /-- the calls of dataiter/vector.py: Vector.to_string in the order Python makes them along the source text -/
-def Vector_to_string_call_order : List String := ["util.get_print_width", "self[:max_elements].to_strings", "add_string_element", "add_string_element", "add_string_element", "len", "x.strip", "' '.join", "'\\n'.join"]
+def Vector_to_string_call_order : List String := ["util.get_print_width", "min", "self[:n].to_strings", "add_string_element", "add_string_element", "add_string_element", "len", "x.strip", "' '.join", "'\\n'.join"]
 
 /-- dataiter/data_frame.py: DataFrame.to_string (sha256 of the function source: a45e730483bef674) -/
 def DataFrame_to_string (truth : Term → Bool) : Out :=
